@@ -167,6 +167,7 @@ func extractAccessors() {
 	sort.Strings(typeNames)
 	skipped := map[string]bool{}
 	nTypes := 0
+	allAccTypes := map[string]bool{}
 	for _, tn := range typeNames {
 		st := scope.Lookup(tn).Type().Underlying().(*types.Struct)
 		store, arrN := "", 0
@@ -205,6 +206,7 @@ func extractAccessors() {
 		sort.Strings(fields)
 		if len(fields) > 0 {
 			nTypes++
+			allAccTypes[tn] = true // the harness registry covers every type with accessors, recognised or not
 		}
 		for _, f := range fields {
 			g, s := fns[tn+".Get"+f], fns[tn+".Set"+f]
@@ -298,6 +300,9 @@ func extractAccessors() {
 	}
 	writeJSON(filepath.Join(*facts, "accessors.json"), js)
 	var rt []string
+	for t := range allAccTypes {
+		regTypes[t] = true
+	}
 	for t := range regTypes {
 		rt = append(rt, t)
 	}
